@@ -9,6 +9,7 @@ import itertools
 from .. import core, harness, hooks, vloop
 
 PROP = 'C10'
+TECHNIQUE = ('runtime monitoring: evaluation counter at the eval_block boundary (logical-step non-termination verdict) + brute-force search for consistent assignments + idle-hook consistency invariant')
 LEVEL = 'exploration'
 RULE = ("case = boolean network: 1..2 Input sources, 2..10 CBlocks over Not/Xor/identity/And "
         "with arbitrary (cyclic) wiring, optional loops closed through on_output events into an "
